@@ -232,6 +232,34 @@ func c03Units(ctx *core.Ctx) []core.Unit {
 			}
 		}})
 	}
+	// a long history on one configuration: the same single opening before and after openings at 140 other points
+	us = append(us, core.Unit{Name: "the same proof before and after 140 proofs at other evaluation points", Run: func(ctx *core.Ctx, r *core.Result) {
+		needRef()
+		c := conf()
+		polys := polyAlphabet(ctx.Seed)
+		s := stmt{label: "vt", zs: []int{5}, polys: []namedPoly{polys[12]}}
+		rc, rfs, _ := s.refObjs()
+		want, _ := ref.MultiProveBytes(s.label, ref.SRS(), rc, rfs, s.zs)
+		probe := func(when string) {
+			b, _, err := implProofBytes(c, s)
+			r.Evals++
+			r.Nontrivial++
+			if err != nil || hx(b) != hx(want) {
+				vio(r, "c03.bytes", "CreateMultiProof", s.String()+" "+when, "reference proof bytes "+hx(want), fmt.Sprintf("err=%v %s", err, hx(b)))
+			}
+		}
+		probe("first")
+		for z := 6; z < 146; z++ {
+			o := stmt{label: "vt", zs: []int{z}, polys: []namedPoly{polys[12]}}
+			if !timed(r, "c03.panic", "CreateMultiProof", o.String(), func() { implProofBytes(c, o) }) {
+				return
+			}
+			if z == 80 {
+				probe("after 75 proofs at other points")
+			}
+		}
+		probe("after 140 proofs at other points")
+	}})
 	// IPA proofs against the reference prover
 	ipaPts := []*big.Int{bi(0), bi(255), bi(256), new(big.Int).Sub(bigR, bi(1))}
 	if ctx.Thorough() {
